@@ -1,0 +1,6 @@
+//go:build !verif
+
+package zygo
+
+// verifStep is a no-op unless built with -tags verif.
+func (env *Zlisp) verifStep() error { return nil }
